@@ -543,6 +543,13 @@ def external(fr, dotted, args, kw, extra, n):
         if name in ('greater', 'greater_equal', 'less', 'less_equal', 'equal', 'not_equal') and len(args) == 2:
             op = {'greater': 'Gt', 'greater_equal': 'GtE', 'less': 'Lt', 'less_equal': 'LtE', 'equal': 'Eq', 'not_equal': 'NotEq'}[name]
             return T.cmp_(op, args[0], args[1])
+        if name == 'where' and len(args) == 3 and not kw:
+            # np.where(c, a, b): element i is a[i] where c[i] holds, else b[i]  (== [a[i] if c[i] else b[i] for i ...])
+            n_ = next((T.length(x) for x in (args[2], args[1], args[0]) if not T.scalar_value(x)), None)
+            if n_ is not None:
+                lv = ('lv', ('range', C(0), n_, C(1)), len(fr.loops))
+                pick = [x if T.scalar_value(x) else T.index(x, lv) for x in args]
+                return ('nd', ('map', lv[1], T.gamma(pick[0], pick[1], pick[2])))
         if name == 'where' and len(args) == 1:
             return ('tuple', (T.call('flatnonzero', (a0,)),))
         if name == 'nonzero' and len(args) == 1:
